@@ -232,8 +232,10 @@ def new_version(data, allow_custom=None, **kwargs):
     # changes like the others: subject to the same checks, and they must
     # replace what the object holds under those names.
     if isinstance(kwargs.get("custom_properties"), Mapping):
-        kwargs.update(kwargs.pop("custom_properties"))
-        if allow_custom is None:
+        custom_properties = kwargs.pop("custom_properties")
+        kwargs.update(custom_properties)
+        if allow_custom is None and custom_properties:
+            # (as in the constructors: an empty mapping opts into nothing)
             allow_custom = True
     changed_properties = set(kwargs)
 
